@@ -13,11 +13,13 @@ package main
 //     Per step the model receives the listing of W taken just before the step (ModelOp):
 //       plan m=<c|d> i= o= f= rm= nl= nd= j= base=<W> cwd=<working directory> fs=<kind:path,...> obs=<exit status>
 //     and both sides print
-//       <tasks:N|tasks:*|err:CODE|fault> rc=<exit status> tasks=<in>out,..|*> new=<new files|*>
+//       <tasks:N|tasks:*|err:CODE> rc=<exit status> tasks=<in>out,..|*> new=<new files|*>   (`fault`: the tool reported a run-time fault; the model never does)
 //     (steps joined by ` || `): the (input, output) names the tool printed with -v 3, and the files
 //     that exist after the step and did not before.
 //   clean <path>       filepath.Clean against the model's `clean`
 //   join <root> <rel>  filepath.Join iterated over the components of rel against `walkPath`
+//   rel <base> <targ>  filepath.Rel against `filepathRel` (`err` when it fails)
+//   base <path>        filepath.Base against `baseName`
 //
 // Oracles evaluated on the real runs, independently of the model (Violations):
 //   overwrote-existing   without -f a file that existed before the step has other content after it
@@ -31,6 +33,10 @@ package main
 //   exit-status          a round trip of a tree of regular files did not exit with status 0
 //   tree-mismatch        after compress + decompress some file is not restored byte for byte
 //   process-panic        the process died from / reported a Go run-time fault
+//   spurious-refusal     the pre-flight check refused a run (status 7) in which, by the documented naming,
+//                        no two sources share an output and no output is a source
+//   refusal-with-effect  a run refused by the pre-flight check created a file
+// A run refused with status 7 because of a real collision is not a violation.
 
 import (
 	"bytes"
@@ -515,6 +521,7 @@ func cpObserve(r cpRunRes, outArg string) cpObs {
 		}
 	}
 	planErr := strings.Contains(text, "Cannot find any file to") || strings.Contains(text, "Output must be") ||
+		strings.Contains(text, "is also an input file") || strings.Contains(text, "share the output file") ||
 		strings.Contains(text, "Cannot access ") || (strings.Contains(text, "An unexpected condition happened") && n < 0 && len(ins) == 0)
 	switch {
 	case r.rc == 127 && strings.Contains(text, "slice bounds out of range"):
@@ -579,6 +586,8 @@ type cpCtx struct {
 
 func (c *cpCtx) viol(site, symptom, what string) {
 	if c.res.Violation == nil {
+		// the statistics keep the first 20 violations only: count all of them in the histogram
+		c.res.Tags = append(c.res.Tags, "violation:"+symptom+":spell="+c.m["spell"])
 		c.res.Violation = &Violation{Kind: "input", Site: site, Symptom: symptom, What: what}
 	}
 }
@@ -609,6 +618,12 @@ func cpSpell(W, rel, spell string) (string, string) {
 		return W + "/./" + rel, W
 	case "nonrec":
 		return rel + "/.", W
+	case "parent": // `..` from an (empty) sub-directory made for the purpose
+		os.MkdirAll(filepath.Join(W, rel, "zz"), 0o755)
+		return "..", filepath.Join(W, rel, "zz")
+	case "subparent":
+		os.MkdirAll(filepath.Join(W, rel, "zz"), 0o755)
+		return rel + "/zz/..", W
 	case "cwd":
 		return ".", filepath.Join(W, rel)
 	case "cwdslash":
@@ -821,6 +836,29 @@ func (c *cpCtx) step(s cpStep, orig map[string][]byte, expectOK bool) (cpObs, ma
 		}
 		if allowed != "." && rel != allowed && !strings.HasPrefix(rel, allowed+"/") {
 			c.viol(site, "outside-outdir", fmt.Sprintf("%s: new file %s outside %s", what, rel, allowed))
+		}
+	}
+	// a refusal by the pre-flight check (status 7 before anything is opened) must be real: by the
+	// documented naming two sources share an output, or an output is a source
+	if r.rc == 7 && (strings.Contains(e, "is also an input file") || strings.Contains(e, "share the output file")) {
+		c.res.Tags = append(c.res.Tags, "refused:preflight")
+		wants := map[string]int{}
+		for _, x := range srcs {
+			wants[filepath.Clean(x.want)]++
+		}
+		real := false
+		for _, x := range srcs {
+			if wants[filepath.Clean(x.want)] > 1 || isSrc[filepath.Clean(x.want)] {
+				real = true
+			}
+		}
+		if _, isLinkFam := before["T/lnk0"]; !real && !isLinkFam {
+			c.viol(site, "spurious-refusal", fmt.Sprintf("%s: refused with status 7 although no two sources share an output and no output is a source: %s", what, tail))
+		}
+		for rel := range after {
+			if _, ok := before[rel]; !ok {
+				c.viol(site, "refusal-with-effect", fmt.Sprintf("%s: refused with status 7 but %s was created", what, rel))
+			}
 		}
 	}
 	nStrict := 0
@@ -1089,6 +1127,33 @@ func cpExec(op string, res *Result) string {
 		res.Nontrivial = true
 		res.Tags = append(res.Tags, "kind:join")
 		return cpEsc(p)
+	case "rel":
+		if len(ws) != 3 {
+			return "bad-op"
+		}
+		b, ok1 := cpUnesc(ws[1])
+		t, ok2 := cpUnesc(ws[2])
+		if !ok1 || !ok2 {
+			return "bad-op"
+		}
+		res.Nontrivial = true
+		res.Tags = append(res.Tags, "kind:rel")
+		r, err := filepath.Rel(b, t)
+		if err != nil {
+			return "err"
+		}
+		return cpEsc(r)
+	case "base":
+		if len(ws) != 2 {
+			return "bad-op"
+		}
+		p, ok := cpUnesc(ws[1])
+		if !ok {
+			return "bad-op"
+		}
+		res.Nontrivial = true
+		res.Tags = append(res.Tags, "kind:base")
+		return cpEsc(filepath.Base(p))
 	case "run":
 	default:
 		return "bad-op"
@@ -1164,11 +1229,28 @@ func cpGen(r *rand.Rand, tier string, n int, emit func(op string, tags ...string
 			rel = append(rel, names[r.Intn(len(names))])
 		}
 		emit("join "+cpEsc(root)+" "+cpEsc(strings.Join(rel, "/")), "family:join")
+		b := cpRandPath(r)
+		t := cpRandPath(r)
+		switch r.Intn(3) {
+		case 0: // target below the base, spelled differently
+			t = b + "/./" + strings.Join(rel, "//")
+		case 1:
+			t = filepath.Clean(b) + "/" + rel[0]
+		}
+		emit("rel "+cpEsc(b)+" "+cpEsc(t), "family:rel")
+		emit("base "+cpEsc(cpRandPath(r)), "family:base")
+	}
+	for _, bt := range [][2]string{{"a", "."}, {".", "a"}, {"/", "/"}, {"/a", "/"}, {"..", "a"}, {"../x", "../y"}, {"../..", ".."}, {"a/b", "a/b/"}, {"", ""}, {"/a", "b"}, {"T/", "T"}, {"T/", "T/.."}} {
+		emit("rel "+cpEsc(bt[0])+" "+cpEsc(bt[1]), "family:rel")
+	}
+	for _, p := range []string{"", "/", "//", "a/", "a//", "/a", "a/b", "."} {
+		emit("base "+cpEsc(p), "family:base")
 	}
 	bit := func() int { return r.Intn(2) }
 	jobs := func() int { return []int{1, 1, 1, 2, 4}[r.Intn(5)] }
 	okSpells := []string{"plain", "plain", "slash", "abs", "absslash", "nonrec", "updown"}
 	badSpells := []string{"dotslash", "dotslashslash", "dblslash", "innerdbl", "dotdot", "absdot", "cwd", "cwdslash"}
+	dotSpells := []string{"parent", "subparent"} // the last element of -i ends with a dot
 	ospells := []string{"plain", "plain", "slash", "abs", "dotslash"}
 	fams := []string{"plain", "plain", "knz", "deep", "short", "dots"}
 	// the single-file branch and the multi-file branch on the same layouts
@@ -1207,6 +1289,16 @@ func cpGen(r *rand.Rand, tier string, n int, emit func(op string, tags ...string
 		fam := fams[r.Intn(len(fams))]
 		emit(fmt.Sprintf("run kind=rt fam=%s seed=%d lay=%s spell=%s ospell=%s f=%d rm=%d nl=0 nd=0 j=%d", fam, r.Int63n(1<<31),
 			[]string{"inplace", "outdir", "outdir", "outdir"}[r.Intn(4)], badSpells[r.Intn(len(badSpells))], ospells[r.Intn(3)], bit(), r.Intn(4)/3, jobs()), "family:spelling")
+	}
+	// regression family of finding P5 (repaired in f45672a): `formattedInName` dropped any trailing dot
+	// of the -i string (meant for `X/.`): `..`, `X/..`
+	nDot := 6
+	if tier == "thorough" {
+		nDot = 60
+	}
+	for i := 0; i < nDot; i++ {
+		emit(fmt.Sprintf("run kind=rt fam=%s seed=%d lay=%s spell=%s ospell=plain f=%d rm=0 nl=0 nd=0 j=%d", []string{"one", "two", "plain"}[i%3], r.Int63n(1<<31),
+			[]string{"outdir", "inplace", "outdir"}[i%3], dotSpells[i%2], bit(), jobs()), "family:spelling-trailing-dot")
 	}
 	// hazards: an output that is another input, colliding outputs, links
 	for _, f := range []int{0, 1} {
